@@ -12,7 +12,7 @@ LEAN_TARGETS = ['DawgieVerif.Model.FarmIO']
 
 MANIFEST = dict(
     text='Lean theorems over Model/Farm.lean (Hand._reg, connectionLost, status poll, notify/notify_all, the assignment loop of dispatch, clear) for every valid history of registrations with matching or stale revision, disconnects, status polls, dispatch ticks, revision changes and activity changes: only_eligible (a task message goes only to a connection that was idle-listed, is connected, holds no task and registered with the current revision, and only while active), archive_tick_aborts (the tick in which dispatch itself fires the archive tells every idle worker to leave), one_task_per_worker, inactive_only_abort (while not active every step writes nothing but abort; a dispatch tick writes nothing), unplaced_stay (handed-out messages ++ queue is a permutation of old queue ++ newly queued), handed_xor_queued (its counting form: every message is handed to exactly one worker or still queued, never both or twice), message_fields and fresh_id_drawn_iff (job, target, run id 0 for regressions, the event run id or a fresh one drawn exactly when none) over the scheduler model. Invariant FInv by induction over op lists. Tied by op-by-op correspondence with the real farm on fake transports (bytes written are decoded with the real message.loads); the monitor checks every written message against the registration/connection/holding state it tracks itself, and farm.crew() against the units handed out and not answered.',
-    note='Assumed (ValidRun, exercised as a separate malformed stream): one register per connection; the life-cycle changes git_rev only while inactive and becomes active again only after farm.clear() (established by C10 for update -> ... -> load). _workers_sort (round robin over hosts) is the identity for one host, which is what the harness uses; insights is empty so _cluster_sort is the stable sort by run id. AWS/cloud placement (_agency) is not modelled. That db.next() exceeds every stored run id is C08. Trusted: Lean kernel, harness fakes.',
+    note='Assumed (ValidRun): one register per connection (a repeated registration followed by a disconnect is exercised by scenarios: every idle-list entry of the connection must go); the life-cycle changes git_rev only while inactive and becomes active again only after farm.clear() (established by C10 for update -> ... -> load). _workers_sort (round robin over hosts) is the identity for one host, which is what the harness uses; insights is empty so _cluster_sort is the stable sort by run id. AWS/cloud placement (_agency) is not modelled. That db.next() exceeds every stored run id is C08. Trusted: Lean kernel, harness fakes.',
     technique='Lean 4 proof: invariant by induction over farm operation histories + differential correspondence',
     design='7/C11',
 )
@@ -162,6 +162,17 @@ class World:
             if h.transport.closed:
                 self.lost.add(w)
             self.model_ops.append(['reg', w, self.revn(rev)])
+        elif kind == 'rereg':
+            # outside ValidRun (one register per connection): an idle registered connection repeats its
+            # registration.  The code tolerates it (connectionLost removes every entry); the scenarios
+            # using it drop the connection before the next tick, so that no clause of the property is
+            # in question on conforming code while a partial removal shows as a task to a dead worker.
+            idle = [w for h in F._workers for w, hh in self.hands.items() if hh is h and w not in self.lost]
+            if not idle:
+                return
+            w = idle[0]
+            self.send(self.hands[w], typ=env.M.Type.register, inc=1, rev=rev_before)
+            self.model_ops.append(['reg', w, self.revn(rev_before)])
         elif kind == 'disc':
             live = [w for w in self.hands if w not in self.lost]
             if not live:
@@ -400,6 +411,11 @@ def scenarios(env):
         out.append([('active', True), ('reg', True, 0), ('reg', True, 1), ('reg', True, 2),
                     ('org', [tags[0]], None, [tg[0]]), ('disp',), ('org', [tags[0]], None, [tg[1]]), ('disp',),
                     ('disp',)])
+    # a connection that registered twice drops: every idle-list entry of it must go, the task stays queued
+    out.append([('active', True), ('reg', True, 0), ('rereg',), ('disc', 0.0), ('org', [tags[0]], None, list(tg)),
+                ('disp',), ('disp',), ('reg', True, 0), ('disp',)])
+    out.append([('active', True), ('reg', True, 0), ('rereg',), ('rereg',), ('disc', 0.0), ('reg', True, 1),
+                ('org', list(tags), None, list(tg)), ('disp',), ('disp',)])
     # reload: stale workers must not get work after the revision changed
     out.append([('active', True), ('reg', True, 1), ('active', False), ('setrev', 'rev1'), ('notify',), ('clear',),
                 ('active', True), ('reg', True, 1), ('reg', False, 1), ('org', [tags[0]], 4, list(tg)), ('disp',)])
